@@ -107,7 +107,7 @@ def run(ctx, rep):
                f'entry {[x[2][0][2] for x in src]} is converted under key {key[0][2]}')
     rep.floor('converted entries', nk, 6)
     # ---- Imsaak branches ----------------------------------------------------------------------------------------------
-    imsaak.check(ctx, rep, 'R12.4')
+    imsaak.check(ctx, rep, 'R12.4', entry=False)
     # ---- absent weather = default -------------------------------------------------------------------------------------
     hb = ctx.role('hours_builder')
     eng3 = ctx.engine(opaque_roles=('normalisers', 'eph_ctors'))
